@@ -753,3 +753,157 @@ func transitionFault(t *testing.T, phase string, observe, hb time.Duration, a, w
 	})
 	return failure, hit
 }
+
+// ---------------------------------------------------------------------------------------------
+// the tokens file follows the tokens: a token replaced while joining (conflict resolution gave it to
+// somebody else) is replaced in the file too, so that a later restart without a ring entry resumes
+// with the tokens the instance really held
+
+func TestTokensFileAfterReplacement(t *testing.T) {
+	idx := 0
+	for _, numTokens := range []int{1, 4} {
+		for _, observe := range []time.Duration{time.Second, 3 * time.Second} {
+			for lost := 0; lost < numTokens; lost++ {
+				for _, unregister := range []bool{true, false} {
+					idx++
+					if !vx.Mine(idx) {
+						continue
+					}
+					failure := tokensFileAfterReplacement(t, numTokens, observe, lost, unregister)
+					vx.Eval(1)
+					vx.NonTrivial(vx.FP("file-after-replacement", numTokens, observe, lost, unregister))
+					if failure != "" {
+						vx.Failf(t, "TestTokensFileAfterReplacement", map[string]any{"tokens": numTokens, "observe": observe.String(), "lost_token_index": lost, "unregister": unregister},
+							"tokens=%d observe=%v lost token #%d unregister=%v: %s", numTokens, observe, lost, unregister, failure)
+					}
+				}
+			}
+		}
+	}
+	vx.Exhaustive("tokens file after a replacement: full lifecycler with a tokens file, 1 or 4 tokens, observe 1/3 s, each token in turn taken away while joining, stop with and without unregistering, restart")
+}
+
+func tokensFileAfterReplacement(t *testing.T, numTokens int, observe time.Duration, lost int, unregister bool) (failure string) {
+	dir, err := os.MkdirTemp("", "c09f")
+	if err != nil {
+		return err.Error()
+	}
+	defer os.RemoveAll(dir)
+	vx.Bubble(t, func(b *vx.B) {
+		store, closer := consul.NewInMemoryClient(ring.GetCodec(), log.NewNopLogger(), nil)
+		b.Cleanup(func() { _ = closer.Close() })
+		ctx := context.Background()
+		_ = store.CAS(ctx, lcx.RingKey, func(interface{}) (interface{}, bool, error) {
+			d := ring.NewDesc()
+			d.AddIngester("other", "other:1", "z", []uint32{28, 29, 30, 31}, ring.ACTIVE, time.Now(), false, time.Time{}, nil)
+			return d, true, nil
+		})
+		cfg := lcx.Cfg{ID: "ing-1", NumTokens: numTokens, JoinAfter: time.Second, Observe: observe, HBPeriod: 2 * time.Second, GenSeed: 7, GenSpace: 28,
+			TokensPath: filepath.Join(dir, "tokens"), Unregister: unregister, FinalSleep: time.Second}
+		l1, err := lcx.New(cfg, store)
+		if err != nil {
+			failure = err.Error()
+			return
+		}
+		stopped := false
+		var l2 *lcx.LC
+		b.Cleanup(func() {
+			if !stopped {
+				l1.Svc.StopAsync()
+			}
+			if l2 != nil {
+				l2.Svc.StopAsync()
+			}
+			time.Sleep(20 * time.Second)
+		})
+		if err := services.StartAndAwaitRunning(ctx, l1.Svc); err != nil {
+			failure = err.Error()
+			return
+		}
+		time.Sleep(time.Second + 100*time.Millisecond)
+		vx.Wait()
+		e, ok := entry(store, "ing-1")
+		if !ok || e.State != ring.JOINING || len(e.Tokens) != numTokens {
+			failure = fmt.Sprintf("setup: instance not joining with its tokens: %+v", e)
+			return
+		}
+		// conflict resolution: the token now belongs to "other"
+		tk := e.Tokens[lost]
+		_ = store.CAS(ctx, lcx.RingKey, func(v interface{}) (interface{}, bool, error) {
+			d := ring.GetOrCreateRingDesc(v)
+			in := d.Ingesters["ing-1"]
+			in.Tokens = append(append([]uint32{}, in.Tokens[:lost]...), in.Tokens[lost+1:]...)
+			d.Ingesters["ing-1"] = in
+			o := d.Ingesters["other"]
+			o.Tokens = append(append([]uint32{}, o.Tokens...), tk)
+			sort.Slice(o.Tokens, func(a, b int) bool { return o.Tokens[a] < o.Tokens[b] })
+			d.Ingesters["other"] = o
+			return d, true, nil
+		})
+		time.Sleep(3*observe + 3*time.Second)
+		vx.Wait()
+		e, ok = entry(store, "ing-1")
+		if !ok || e.State != ring.ACTIVE || len(e.Tokens) != numTokens {
+			failure = fmt.Sprintf("after the token was taken away the instance did not become active with %d tokens: %+v", numTokens, e)
+			return
+		}
+		for _, x := range e.Tokens {
+			if x == tk {
+				failure = fmt.Sprintf("the instance took back token %d, which conflict resolution gave to another instance", tk)
+				return
+			}
+		}
+		held := append([]uint32{}, e.Tokens...)
+		file, err := ring.LoadTokensFromFile(cfg.TokensPath)
+		if err != nil {
+			failure = fmt.Sprintf("tokens file unreadable while the instance is active: %v", err)
+			return
+		}
+		if fmt.Sprint([]uint32(file)) != fmt.Sprint(held) {
+			failure = fmt.Sprintf("the instance holds %v (ring entry) but its tokens file records %v", held, []uint32(file))
+			return
+		}
+		// stop, lose the entry (unregistered, or the ring wiped), restart from the file
+		if err := services.StopAndAwaitTerminated(ctx, l1.Svc); err != nil {
+			failure = fmt.Sprintf("stop: %v", err)
+			return
+		}
+		stopped = true
+		_ = store.CAS(ctx, lcx.RingKey, func(v interface{}) (interface{}, bool, error) {
+			d := ring.GetOrCreateRingDesc(v)
+			delete(d.Ingesters, "ing-1")
+			return d, true, nil
+		})
+		time.Sleep(2 * time.Second)
+		l2, err = lcx.New(cfg, store)
+		if err != nil {
+			failure = err.Error()
+			return
+		}
+		if err := services.StartAndAwaitRunning(ctx, l2.Svc); err != nil {
+			failure = fmt.Sprintf("restart: %v", err)
+			return
+		}
+		time.Sleep(3*observe + 5*time.Second)
+		vx.Wait()
+		e, ok = entry(store, "ing-1")
+		if !ok || e.State != ring.ACTIVE {
+			failure = fmt.Sprintf("after the restart the instance is not active: %+v", e)
+			return
+		}
+		if fmt.Sprint(e.Tokens) != fmt.Sprint(held) {
+			failure = fmt.Sprintf("before the stop the instance held %v; restarted without a ring entry (from its tokens file) it holds %v", held, e.Tokens)
+			return
+		}
+		o, _ := entry(store, "other")
+		for _, x := range e.Tokens {
+			for _, y := range o.Tokens {
+				if x == y {
+					failure = fmt.Sprintf("after the restart token %d is held by both instances", x)
+					return
+				}
+			}
+		}
+	})
+	return failure
+}
